@@ -159,8 +159,10 @@ def exact_tests(ctx, functions) -> Tuple[List[Tuple[FunctionInfo, ast.AST, str, 
                     t = _tys(ctx, fi, a)
                     if not (t and t <= {"num"}):
                         continue
-                    if isinstance(a, ast.Call) and isinstance(a.func, ast.Name) and a.func.id in ("len", "bool", "isinstance"):
+                    if isinstance(a, ast.Call) and isinstance(a.func, ast.Name) and a.func.id in ("len", "bool", "isinstance", "all", "any", "isclose", "callable", "hasattr"):
                         continue
+                    if isinstance(a, ast.Call) and txt(a.func) in ("math.isclose",):
+                        continue  # a tolerant comparison: its own tolerances are C19 R19.3's subject
                     w = float_source(ctx, fi, a)
                     if w:
                         out.append((fi, a, "truthiness in %s" % where, w))
